@@ -328,3 +328,40 @@ def concrete_fast_load(regs, block):
     if bad:
         d.append(('memory[%d]' % bad[0], sim.memory[bad[0]], em[bad[0]]))
     return d
+
+
+def crosscheck_fast_load(rep, prop, n=150):
+    """Standing CPython cross-check of the contract itself: the real fast_load against the int evaluation
+    of the contract on boundary-biased random states (guards against an unsound VC engine or encoding)."""
+    rnd = random.Random(20260926)
+    for t in range(n):
+        regs = [rnd.randrange(256) for _ in range(30)]
+        regs[Z.SP] = rnd.choice((0, 1, 2, 0x3FFF, 0x4000, 0x4001, 0x4002, rnd.randrange(65536)))
+        regs[Z.PC] = rnd.randrange(65536)
+        regs[Z.T] = rnd.randrange(10 ** 6)
+        regs[13] = 0
+        m = rnd.choice((2, 3, 19, rnd.randrange(2, 300)))
+        block = [rnd.randrange(256) for _ in range(m)]
+        if rnd.random() < 0.75:
+            block[0] = regs[Z.A]
+        if rnd.random() < 0.6:
+            regs[Z.D] = 0
+            regs[Z.E] = rnd.randrange(0, min(255, m + 3))
+        if rnd.random() < 0.3:
+            regs[Z.IXh], regs[Z.IXl] = rnd.choice((0xFF, 0x3F)), rnd.randrange(200, 256)
+        de = regs[Z.E] + 256 * regs[Z.D]
+        if de <= m - 2 and rnd.random() < 0.6:
+            tot = 0
+            for b in block[:de + 1]:
+                tot ^= b
+            block[de + 1] = tot ^ rnd.choice((0, 1, 0x55))
+        try:
+            d = concrete_fast_load(regs, block)
+        except Exception as ex:
+            d = [('exception in the real function', repr(ex)[:120], 'none')]
+        if d:
+            rep.violation('%s/skoolkit.loadtracer.LoadTracer.fast_load/crosscheck' % prop,
+                          'real fast_load disagrees with the contract on a concrete state: %s' % (d[:3],),
+                          {'case': {'regs': regs, 'block': block}, 'observed_vs_expected': d})
+            break
+    rep.extra['crosscheck_samples'] = rep.extra.get('crosscheck_samples', 0) + n
